@@ -40,7 +40,9 @@ def run_one(ctx, h, nops, triggers, model_in, expect):
                 w2.apply(l)
             snap = oracles.snapshot(w2)
             dline = f'delete {i} {rec}'
-            r = w2.apply(dline)
+            via_proxy = (h + i + rec) % 3 == 0
+            r = w2.apply(f'pdelete {i} {rec}' if via_proxy else dline)
+            ctx.count('delete/through-proxy' if via_proxy else 'delete/direct')
             ctx.evaluations += 1
             ctx.count('delete/rec' if rec else 'delete/nonrec')
             D = [i] + (oracles.subtree(w2, snap, i) if rec else [])
@@ -74,7 +76,7 @@ def run(ctx):
     nops = 22 if ctx.quick() else 35
     ctx.rule = (f'{n} generated trigger-free histories (<= {nops} mutations; every metamodel has at least one reference without '
                 'opposite) + n/3 histories that may put a value twice into a list-like reference; after each history every '
-                'object is deleted in turn, recursively and not, each on a fresh replay of the history; oracle: scan of all '
+                'object is deleted in turn, recursively and not, directly or through a resolved proxy standing for it, each on a fresh replay of the history; oracle: scan of all '
                 'features of all objects against a pre-delete snapshot. non-trivial & distinct = (history, object, recursive) '
                 'where a survivor referred to a deleted object or the deleted subtree had more than one object')
     model_in, expect = [], []
